@@ -22,6 +22,7 @@ RULE = ("(a) exhaustive enumeration of a configuration lattice: 16 flag combinat
         "suite builds) and closure cases with >= 1 note. Distinct by case digest. exhaustive=true refers to part (a).")
 RULE = RULE + " Rounds e-g: signature ranges excluding 8/8, inputs assembled from Bar objects / a Composition, table integrity after looking up non-members."
 RULE = RULE + " Round h: high-resolution vocabularies (ppqn up to 10000, fields of four and more digits), insert_bar_token=False."
+RULE = RULE + " Round j: one-note sweeps under every signature of the range and at odd resolutions."
 ASSUMPTIONS = ["velocity_bins <= 127", "exceptions other than TokenisationException on deliberately invalid ('wild') input are counted as "
                "inconclusive, not as closure violations"]
 TIERS = {"quick": dict(shards=8, examples=350, enum_shards=8, lattice="quick"),
@@ -80,6 +81,8 @@ def _shapes(draw, shard, nshards):
     cfg["velocity_bins"] = draw(st.one_of(st.integers(1, 12), st.sampled_from([15, 16, 19, 32])))
     lo = cfg["pitch_range"][0]
     cfg["pitch_range"] = [lo, min(127, lo + draw(st.integers(0, 2)))]
+    if draw(st.integers(0, 2)) == 0:
+        cfg["ppqn"] = draw(st.sampled_from([3, 9, 15, 12, 6, 25]))       # odd and small resolutions
     return {"kind": "shapes", "cfg": cfg}
 
 
@@ -245,6 +248,11 @@ def check(case):
             seqs[tr].add_absolute_message(Message(message_type=MT.NOTE_OFF, note=p, time=val))
             try:
                 tokens = tok.tokenise(seqs)
+            except TokenisationException as e:
+                if cfg.get("ppqn") not in (None, 24, 48, 96):
+                    continue      # (at an odd resolution a bar may not be fillable with the step sizes: a legitimate rejection)
+                out.fail(f"tokenise-raises:{type(e).__name__}", f"one note track {tr} pitch {p} value {val} velocity {vel}: {e} cfg {cfg}")
+                return out
             except Exception as e:
                 out.fail(f"tokenise-raises:{type(e).__name__}", f"one note track {tr} pitch {p} value {val} velocity {vel}: {e} cfg {cfg}")
                 return out
@@ -252,6 +260,22 @@ def check(case):
             missing = [t for t in tokens if t not in vocab]
             if missing:
                 out.fail("token-not-in-vocabulary", f"{missing[:3]} for one note track {tr} pitch {p} value {val} velocity {vel}; cfg {cfg}")
+                return out
+        # ... and one note under every time signature of the tokeniser's range, stated on tick 0
+        lo_ts, hi_ts = cfg.get("ts_range") or (2, 16)
+        p0 = cfg["pitch_range"][0]
+        for num in range(lo_ts, hi_ts + 1):
+            seqs = [Sequence() for _ in range(cfg["num_tracks"])]
+            seqs[0].add_absolute_message(Message(message_type=MT.TIME_SIGNATURE, numerator=num, denominator=8, time=0))
+            seqs[0].add_absolute_message(Message(message_type=MT.NOTE_ON, note=p0, velocity=reps[0], time=0))
+            seqs[0].add_absolute_message(Message(message_type=MT.NOTE_OFF, note=p0, time=T.note_values_of(cfg)[0]))
+            try:
+                tokens = tok.tokenise(seqs)
+            except Exception:
+                continue          # (acceptance is C01's clause)
+            missing = [t for t in tokens if t not in vocab]
+            if missing:
+                out.fail("token-not-in-vocabulary", f"{missing[:3]} for one note in {num}/8; cfg {cfg}")
                 return out
         out.label("shape-sweeps")
         return out
